@@ -94,6 +94,7 @@ def unit():
     m.ensures("implies(old(k in self.cache), %s == old(%s) + 1 and len(self.cache) == old(len(self.cache)))" % (count_of("self", "k"), count_of("self", "k")),
               "existing-key:store-counts-as-a-use")
     m.ensures("implies(not old(k in self.cache), %s == 1)" % count_of("self", "k"), "new-key:count-1")
+    m.ensures("forall(k2, implies(k2 in self.cache, (k2 in old(self.cache)) or k2 == k))", "no-other-key-appears")
     m.ensures("implies(old(k in self.cache) or %s < self.max_size, %s)" % (n, others % "k"), "no-eviction:other-entries-unchanged")
     m.ensures("implies(not old(k in self.cache) and %s < self.max_size, len(self.cache) == old(len(self.cache)) + 1)" % n)
     m.ensures("implies(not old(k in self.cache) and %s >= self.max_size, len(self.cache) == old(len(self.cache))"
@@ -122,11 +123,11 @@ def unit():
         U.verify("LFUCache", f)
     for f in ("get", "__contains__", "keys", "values", "items"):
         U.verify("Mapping", f, "LFUCache")
-    for f in ("pop", "popitem", "clear", "setdefault"):
+    for f in ("pop", "popitem", "clear", "setdefault", "update"):
         U.verify("MutableMapping", f, "LFUCache")
     for vc in ("KeysView", "ValuesView", "ItemsView"):
         U.verify(vc, "__iter__")
     U.assume("DoublyLinkedList contracts (verified for an uninterpreted payload in C08) are used here with payload sort Ref[Item]")
     U.assume("keys are an uninterpreted sort with equality; hashing is consistent with ==")
-    U.assume("not verified deductively (bounded layer only): MutableMapping.update, Mapping.__eq__")
+    U.assume("not verified deductively (bounded layer only): Mapping.__eq__; which earlier entries survive an update() (the fold of the store contract)")
     return U
